@@ -2,16 +2,6 @@
 // Every builder is an uninterpreted, deterministic function of exactly its arguments.
 verus! {
 
-#[verifier::external_body]
-pub struct Amount { _p: u8 }
-pub uninterp spec fn amount_sat(a: Amount) -> u64;
-impl Amount {
-    #[verifier::external_body]
-    pub fn from_sat(v: u64) -> (r: Amount) ensures amount_sat(r) == v { unimplemented!() }
-    #[verifier::external_body]
-    pub fn to_sat(self) -> (r: u64) ensures r == amount_sat(self) { unimplemented!() }
-}
-
 pub enum EcdsaSighashType { All, SinglePlusAnyoneCanPay }
 impl Clone for EcdsaSighashType { #[verifier::external_body] fn clone(&self) -> (r: Self) ensures r == *self { unimplemented!() } }
 impl Copy for EcdsaSighashType {}
